@@ -23,7 +23,9 @@ func compileClass(vm *r.VM, classID *r.IDName, classNode *syntax.ClassDeclareStm
 			return nil, err
 		}
 
-		ref.DefineProperty(propID, element)
+		// like every other store, a default property keeps a copy (the expression may name a
+		// variable whose list is changed in place later)
+		ref.DefineProperty(propID, value.DuplicateValue(element))
 	}
 
 	// add getters
